@@ -19,6 +19,31 @@ def trunc(path):
     return path[:DEPTH]
 
 
+def _ecompat(a, b):
+    """Path elements denote possibly the same sub-object ('[]' = unknown array index, '#k' = constant index k)."""
+    if a == b:
+        return True
+    if a == "[]":
+        return b == "[]" or (isinstance(b, str) and b.startswith("#"))
+    if b == "[]":
+        return isinstance(a, str) and a.startswith("#")
+    return False
+
+
+def is_prefix(p, q):
+    """p is (compatibly) a prefix of q."""
+    if len(p) > len(q):
+        return False
+    for x, y in zip(p, q):
+        if x is not y and x != y and not _ecompat(x, y):
+            return False
+    return True
+
+
+def is_exact_prefix(p, q):
+    return len(p) <= len(q) and q[:len(p)] == p
+
+
 class Summary:
     __slots__ = ("ret", "ret_cells", "out", "must", "ret_alias", "sinks", "conservative")
 
@@ -229,11 +254,10 @@ class FnAnalysis:
         out = EMPTY
         lp = len(path)
         for p, l in d.items():
-            n = len(p)
-            if n <= lp:
-                if path[:n] == p:
+            if len(p) <= lp:
+                if is_prefix(p, path):
                     out |= l
-            elif p[:lp] == path:
+            elif is_prefix(path, p):
                 out |= l
         return out
 
@@ -326,8 +350,18 @@ class FnAnalysis:
                 if any(len(p) >= DEPTH for _r, p in cells):
                     pass
             elif e[0] in ("i", "c"):
-                cells = [(r, trunc(p + ("[]",))) if len(p) < DEPTH else (r, p) for r, p in cells]
-                strong = False
+                k_ = None
+                if e[0] == "c" and not e[3]:
+                    k_ = e[1]
+                elif e[0] == "i":
+                    dd = self.body.single_def(e[1])
+                    if dd and dd[2] == "A" and dd[3][2][0] == "use" and dd[3][2][1][0] == "k" and dd[3][2][1][1] is not None:
+                        k_ = int(dd[3][2][1][1])
+                if k_ is not None and k_ < 8:
+                    cells = [(r, trunc(p + ("#%d" % k_,))) if len(p) < DEPTH else (r, p) for r, p in cells]
+                else:
+                    cells = [(r, trunc(p + ("[]",))) if len(p) < DEPTH else (r, p) for r, p in cells]
+                    strong = False
                 if e[0] == "i":
                     idxl |= self.st_read(st, (e[1], ()))
             elif e[0] == "s":
